@@ -57,11 +57,21 @@ func comb(rng *rand.Rand, G float64, U int64) []ipt {
 	if bundle {
 		pitch = 1 + rng.Int63n(max64(1, U/4))
 	}
+	// many: eight to twelve thin teeth a good pixel apart on a bar less than a pixel high: the long bottom edge of the bar passes more than ten
+	// pixels that hold a vertex (the feet of the teeth) on one level
+	many := !bundle && rng.Intn(4) == 0 && G >= 22
+	if many {
+		n = 8 + rng.Intn(5)
+		x0 = U + rng.Int63n(U)
+		x = x0
+		pitch = U + rng.Int63n(U/2+1)
+		barH = 1 + rng.Int63n(max64(1, U-1))
+	}
 	sameH := int64(float64(U) * (1 + rng.Float64()*(G/3)))
 	var top []ipt
 	for i := 0; i < n; i++ {
 		w := 1 + rng.Int63n(max64(1, U/2)) // thin
-		if rng.Intn(3) == 0 {
+		if rng.Intn(3) == 0 && !many {
 			w = 1 + rng.Int63n(2*U)
 		}
 		h := int64(float64(U) * (1 + rng.Float64()*(G/3)))
